@@ -234,6 +234,11 @@ func (sw *SessionWindow) Add(data any) {
 			if newEnd.After(*s.slot.End) {
 				s.slot.End = &newEnd
 			}
+		} else if timestamp.Before(*s.slot.Start) {
+			// an out-of-order (but on-time) event older than the one that opened the
+			// session: the session starts at its earliest event
+			start := timestamp
+			s.slot.Start = &start
 		}
 	}
 
